@@ -57,6 +57,14 @@ func c11Gen(r *Rng, tier string, i int) Sx {
 	default:
 		raw = c11Str(r, 8, true)
 	}
+	if r.Chance(1, 12) { // long paths (buffer sizes 64, 128, 256, 1024)
+		pad := strings.Repeat(r.Pick([]string{"a", "/", "a/", " "}), r.Pick2([]int{63, 64, 127, 128, 255, 256, 1024}))
+		if r.Bool() {
+			reg, raw = reg+pad, raw+pad
+		} else {
+			reg, raw = pad+reg, pad+raw
+		}
+	}
 	return c11Mk(strict, enc, prefixes, reg, raw)
 }
 
@@ -121,7 +129,18 @@ func c11Exec(c Sx) (obs Sx) {
 	var nest func(i int)
 	nest = func(i int) {
 		if i == len(prefixes) {
-			rt = r.GET(reg, func(c *rux.Context) { c.SetStatus(200) })
+			h := func(c *rux.Context) { c.SetStatus(200) }
+			switch len(c.String()) % 4 { // the ways of registering a route all normalise alike
+			case 0:
+				rt = r.GET(reg, h)
+			case 1:
+				rt = r.AddNamed("n", reg, h, "GET", "POST")
+			case 2:
+				rt = r.AddRoute(rux.NewNamedRoute("n", reg, h, "GET"))
+			default:
+				rt = rux.NewRoute(reg, h, "GET")
+				rt.AttachTo(r)
+			}
 			return
 		}
 		r.Group(prefixes[i], func() { nest(i + 1) })
